@@ -479,19 +479,25 @@ def h_image(fmt: int, n: int, i0: int, i1: int, i2: int, i3: int, sc: int, lvl: 
 
 
 def _stem_collision_possible(names):
-    """True when the sanitised names may contain an L/R pair whose stem equals another sibling's sanitised name - decided on a deliberately coarse
-    normal form (letters, digits and # only, case kept), so that the region is an over-approximation independent of the sanitiser"""
+    """True when the sanitised names may contain an L/R pair whose stem equals another sibling's sanitised name, or two L/R pairs with the same
+    stem (both forms of the known finding) - decided on a deliberately coarse normal form (letters, digits, # and brackets only, case kept), so
+    that the region is an over-approximation independent of the sanitiser"""
     import re as _re
     norm = lambda s: _re.sub(r"[^A-Za-z0-9#()]", "", s)
     ns = [norm(x) for x in names]
+    stems = []
     for a in range(len(ns)):
         for b in range(len(ns)):
             if a != b and ns[a][-1:] == "L" and ns[b][-1:] == "R" and ns[a][:-1] == ns[b][:-1]:
                 st = ns[a][:-1]
                 if any(c not in (a, b) and (ns[c] == st or ns[c].startswith(st + "(")) for c in range(len(ns))):
                     return True
+                stems.append((st, a, b))
+    for i in range(len(stems)):
+        for j in range(i + 1, len(stems)):
+            if stems[i][0] == stems[j][0] and {stems[i][1], stems[i][2]} != {stems[j][1], stems[j][2]}:
+                return True                          # two pairs named after the same stem
     return False
-
 
 
 def image_obligations(prefix, module, tier, dup, extra=(), cdda=False, levels=False, same_inner=False):
